@@ -1350,6 +1350,15 @@ def canon(expr, params=(), rename=None, consts=None):
             # the first extent of an array is its length
             if isinstance(e.value, ast.Attribute) and e.value.attr == 'shape' and isinstance(e.slice, ast.Constant) and e.slice.value == 0:
                 return ('call', ('fn', 'len'), (c(e.value.value),), ())
+            # an element of a choice is the choice of the elements: (A if t else B)[k] is A[k] if t else B[k]
+            if isinstance(e.value, ast.IfExp) and not isinstance(e.slice, ast.Slice):
+                v = e.value
+                return c(ast.IfExp(test=v.test, body=ast.Subscript(value=v.body, slice=e.slice, ctx=ast.Load()),
+                                   orelse=ast.Subscript(value=v.orelse, slice=e.slice, ctx=ast.Load())))
+            # every element of the endless constant sequence is the constant (only the index form of a zip() produces this)
+            if isinstance(e.value, ast.Call) and dotted(e.value.func) in ('itertools.repeat', 'repeat') and len(e.value.args) == 1 and not e.value.keywords \
+                    and not isinstance(e.slice, ast.Slice):
+                return c(e.value.args[0])
             return ('sub', c(e.value), c(e.slice))
         if isinstance(e, ast.Slice):
             lower = e.lower
